@@ -215,4 +215,4 @@ def oracle(case: dict):
         else:
             r = oracle_group(func, members, positions, case.get("ddof"), case.get("q"))
             out.append(r if isinstance(r, str) else fnum(r))
-    return {"result": out, "groups": [fnum(g) for g in groups]}
+    return {"result": out, "groups": [g if isinstance(g, str) else fnum(g) for g in groups]}
